@@ -73,6 +73,7 @@ let handle (line : string) : string =
             | "M" -> (BFile, [])
             | "R" -> (BPipe, numlist chunks)
             | "P" -> (BPipe, [])
+            | "ZR" -> (BPipeStream, [])
             | _ -> (BStream, []) in
           transcript v be page minb data ch ops end in
       (match tr with
@@ -109,6 +110,17 @@ let handle (line : string) : string =
                  if !ended then incr late;
                  List.iter (fun x -> h := (!h * 257 + int_of_n x + 1) mod 2147483647; incr tot) c end) all chunks;
            if not !ended then "MODEL-DID-NOT-REACH-END" else Printf.sprintf "%x %x %x" !tot !h !late)
+  | ["TK"; mode; hex] ->
+      let data = bytes_of_hex hex in
+      let eqb c = fun (x : n) -> int_of_n x = c in
+      let toks = match mode with
+        | "B" -> tokens_skip_empty is_space data
+        | "S" -> split_on (eqb 32) data
+        | _ -> tokens_skip_empty (fun x -> int_of_n x = 32 || int_of_n x = 9) data in
+      if toks = [] then "none" else begin
+        let b = Buffer.create 64 in
+        List.iteri (fun i t -> if i > 0 then Buffer.add_char b '|'; put_bytes b t) toks;
+        Buffer.contents b end
   | _ -> "BADCMD"
 
 let () = each_line handle
